@@ -226,7 +226,11 @@ def run_history(c):
   else:
     if jax.local_device_count() < dev:
       return None
-    mesh = jax.sharding.Mesh(np.array(jax.devices()[:dev]), ('x',))
+    if c.get('mesh2d') and dev == 2 and jax.local_device_count() >= 4:
+      # a (2, 2) mesh of which the buffer is partitioned along 'x' only: 2 shards, replicated along 'y'
+      mesh = jax.sharding.Mesh(np.array(jax.devices()[:4]).reshape(2, 2), ('x', 'y'))
+    else:
+      mesh = jax.sharding.Mesh(np.array(jax.devices()[:dev]), ('x',))
     q, shards = rbm.PjitWrapper(inner, mesh, ('x',)), dev
   key = jax.random.PRNGKey(c['key'])
   state = q.init(key)
@@ -341,7 +345,7 @@ def run_history(c):
     if _c['sharded_runs'] % 40 == 0:
       jax.clear_caches()
   nontrivial = bool(flags['nt'] or flags['overflow_after_partial'] or flags['exact_fill'])
-  labels = [f'kind:{kind}', f'wrapper:{wrapper}', f'record:{record}', 'jit' if use_jit else 'eager']
+  labels = [f'kind:{kind}', f'wrapper:{wrapper}', f'record:{record}', 'jit' if use_jit else 'eager'] + (['pjit_mesh_2x2_partition_x'] if c.get('mesh2d') and wrapper == 'pjit' and dev == 2 else [])
   if flags['overflow_after_partial']:
     labels.append('overflow_after_partial')
   if flags['refusals']:
@@ -387,7 +391,8 @@ def histories(draw, wrappers=('none',)):
   ops = [list(o) for o in draw(st.lists(op, min_size=nops, max_size=nops))]
   return {'kind': kind, 'wrapper': wrapper, 'D': dev, 'N': n, 'B': b,
           'record': draw(st.sampled_from(['scalar', 'pytree'])), 'jit': draw(st.booleans()),
-          'key': draw(st.integers(0, 2**31 - 1)), 'ops': ops, 'support': draw(st.booleans())}
+          'key': draw(st.integers(0, 2**31 - 1)), 'ops': ops, 'support': draw(st.booleans()),
+          'mesh2d': draw(st.booleans()) if wrapper == 'pjit' and dev == 2 else False}
 
 
 # ---------------------------------------------------------------------------
